@@ -25,8 +25,12 @@ if os.environ.get("VERIF_SIDELOG"):
     _FD = os.open(os.environ["VERIF_SIDELOG"], os.O_WRONLY | os.O_CREAT | os.O_APPEND)
 
 
+RECORDS = []   # native mode (no side log): records are collected here
+
+
 def log(rec):
     if _FD is None:
+        RECORDS.append(json.loads(json.dumps(rec, default=str)))
         return
     with NoTracing():
         os.write(_FD, (json.dumps(rec, default=str) + "\n").encode())
